@@ -3,7 +3,9 @@
 package pmdiff
 
 import (
+	"bytes"
 	"fmt"
+	"math"
 	"regexp"
 	"slices"
 	"strconv"
@@ -30,6 +32,40 @@ type DiffCase struct {
 	// prefix of another line of the two inputs becomes a re-slice of that
 	// longer line, so the two strings start at the same address.
 	Share bool `json:"share,omitempty"`
+	// Pre, Mid and Post are further steps performed after New (Pre), between
+	// AddContext(N) and the final Unify (Mid) and after that Unify (Post); the
+	// chunk oracle runs after every step.
+	Pre  []Step `json:"pre,omitempty"`
+	Mid  []Step `json:"mid,omitempty"`
+	Post []Step `json:"post,omitempty"`
+}
+
+// Step is one further operation on a Diff.  Op "ctx" is AddContext(N) (it may
+// be called repeatedly: every call adds up to N more lines to each chunk),
+// "unify" is Unify, and "normal", "unified", "context" render the diff as it
+// is at that point with Diff.Format into a scratch buffer: formatting is
+// rendering only, so the chunks must describe as correct a patch afterwards
+// as they did before.
+type Step struct {
+	Op string `json:"op"`
+	N  int    `json:"n,omitempty"`
+}
+
+func (s Step) String() string {
+	switch s.Op {
+	case "ctx":
+		return fmt.Sprintf("AddContext(%d)", s.N)
+	case "unify":
+		return "Unify"
+	}
+	return "Format(" + s.Op + ")"
+}
+
+// steps is the whole pipeline after New.
+func (c DiffCase) steps() []Step {
+	out := append(make([]Step, 0, len(c.Pre)+len(c.Mid)+len(c.Post)+2), c.Pre...)
+	out = append(append(out, Step{Op: "ctx", N: c.N}), c.Mid...)
+	return append(append(out, Step{Op: "unify"}), c.Post...)
 }
 
 // shareStorage re-slices prefixes out of the longer lines (see DiffCase.Share).
@@ -54,6 +90,12 @@ func (c DiffCase) String() string {
 	lay := ""
 	if c.Lay != 0 {
 		lay = fmt.Sprintf(" memory layout %d (1: shared prefix memory, 2: shared suffix memory, 3: adjacent windows)", c.Lay)
+	}
+	if len(c.Pre)+len(c.Mid)+len(c.Post) > 0 {
+		lay += " steps New"
+		for _, st := range c.steps() {
+			lay += "." + st.String()
+		}
 	}
 	return fmt.Sprintf("L=%s R=%s n=%d%s", showLines(c.L), showLines(c.R), c.N, lay)
 }
@@ -290,7 +332,6 @@ func runC13(c DiffCase, o *vk.Obs) string {
 	o.ClassIf(shared, "arguments_share_memory")
 	o.Step()
 	d := mdiff.New(L, R)
-	o.Step()
 	fail := func(stage, m string) string { return fmt.Sprintf("%s, after %s: %s", c, stage, m) }
 
 	// ---- after New -------------------------------------------------------------
@@ -314,12 +355,15 @@ func runC13(c DiffCase, o *vk.Obs) string {
 		}
 	}
 	snapEdits := copyEdits(d.Edits)
-	base := make([]span, len(d.Chunks))
-	baseEdits := make([][]edit, len(d.Chunks))
-	for i, ch := range d.Chunks {
-		base[i] = span{ch.LStart, ch.LEnd, ch.RStart, ch.REnd}
-		baseEdits[i] = copyEdits(ch.Edits)
+	snapshot := func() ([]span, [][]edit) {
+		sp, ed := make([]span, len(d.Chunks)), make([][]edit, len(d.Chunks))
+		for i, ch := range d.Chunks {
+			sp[i] = span{ch.LStart, ch.LEnd, ch.RStart, ch.REnd}
+			ed[i] = copyEdits(ch.Edits)
+		}
+		return sp, ed
 	}
+	base, baseEdits := snapshot()
 	undisturbed := func(stage string) string {
 		if !sameEdits(snapEdits, d.Edits) {
 			return fail(stage, fmt.Sprintf("Diff.Edits was disturbed: now %v", d.Edits))
@@ -330,77 +374,169 @@ func runC13(c DiffCase, o *vk.Obs) string {
 		return ""
 	}
 
-	// ---- after AddContext(n) ---------------------------------------------------
-	if ret := d.AddContext(c.N); ret != d {
-		return fail("AddContext", "AddContext does not return its receiver")
+	// State of the pipeline: cur/curEdits is the snapshot of the chunks as the
+	// last New / AddContext / Unify left them (nil: not taken yet); total is
+	// the context requested so far, n the size of the latest request; disjoint
+	// and notAdjacent say what the chunk oracle may demand at this point.
+	cur, curEdits := base, baseEdits
+	total, n := 0, 0
+	disjoint, notAdjacent := true, false
+	formatted, stacked := false, false
+	nctx := 0
+	var scratch bytes.Buffer
+
+	for si, st := range c.steps() {
+		o.Step()
+		stage := st.String()
+		if len(c.Pre)+len(c.Mid)+len(c.Post) > 0 {
+			stage = fmt.Sprintf("step %d (%s)", si+1, stage)
+		} else if st.Op == "ctx" {
+			stage = "AddContext"
+		}
+		switch st.Op {
+		// ---- AddContext(n) -----------------------------------------------------
+		case "ctx":
+			if cur == nil {
+				cur, curEdits = snapshot()
+			}
+			if ret := d.AddContext(st.N); ret != d {
+				return fail(stage, "AddContext does not return its receiver")
+			}
+			if m := undisturbed(stage); m != "" {
+				return m
+			}
+			n = max(st.N, 0)
+			if n > 0 {
+				if nctx > 0 {
+					stacked = true
+				}
+				nctx++
+				disjoint, notAdjacent = false, false
+			}
+			if total += n; total < 0 {
+				total = math.MaxInt
+			}
+			if m := checkChunks(d.Chunks, c.L, c.R, disjoint, notAdjacent); m != "" {
+				return fail(stage, m)
+			}
+			if len(d.Chunks) != len(cur) {
+				return fail(stage, fmt.Sprintf("number of chunks changed from %d to %d", len(cur), len(d.Chunks)))
+			}
+			for i, ch := range d.Chunks {
+				b := cur[i]
+				pre, post := b.ls-ch.LStart, ch.LEnd-b.le
+				if pre < 0 || pre > n || post < 0 || post > n || b.rs-ch.RStart != pre || ch.REnd-b.re != post {
+					return fail(stage, fmt.Sprintf("chunk %d: context of %d lines before and %d after (right side %d/%d) with n=%d; was left [%d,%d) right [%d,%d), now left [%d,%d) right [%d,%d)",
+						i, pre, post, b.rs-ch.RStart, ch.REnd-b.re, n, b.ls, b.le, b.rs, b.re, ch.LStart, ch.LEnd, ch.RStart, ch.REnd))
+				}
+				es := ch.Edits
+				if pre > 0 {
+					if len(es) == 0 || es[0].Op != slice.OpEmit || len(es[0].X) != pre {
+						return fail(stage, fmt.Sprintf("chunk %d: %d lines of leading context are not one Emit edit", i, pre))
+					}
+					es = es[1:]
+				}
+				if post > 0 {
+					if len(es) == 0 || es[len(es)-1].Op != slice.OpEmit || len(es[len(es)-1].X) != post {
+						return fail(stage, fmt.Sprintf("chunk %d: %d lines of trailing context are not one Emit edit", i, post))
+					}
+					es = es[:len(es)-1]
+				}
+				if !sameEdits(curEdits[i], es) {
+					return fail(stage, fmt.Sprintf("chunk %d: the edits between the context are %v, were %v", i, es, curEdits[i]))
+				}
+			}
+			cur, curEdits = nil, nil
+
+		// ---- Unify -------------------------------------------------------------
+		case "unify":
+			if ret := d.Unify(); ret != d {
+				return fail(stage, "Unify does not return its receiver")
+			}
+			if m := undisturbed(stage); m != "" {
+				return m
+			}
+			disjoint, notAdjacent = true, true
+			if m := checkChunks(d.Chunks, c.L, c.R, true, true); m != "" {
+				return fail(stage, m)
+			}
+			// every original chunk lies in exactly one unified chunk, which extends at
+			// most n lines (all AddContext calls together) beyond the first/last
+			// original chunk it covers
+			bi := 0
+			for i, ch := range d.Chunks {
+				first := bi
+				for bi < len(base) && base[bi].le <= ch.LEnd && base[bi].ls >= ch.LStart {
+					bi++
+				}
+				if bi == first {
+					return fail(stage, fmt.Sprintf("unified chunk %d left [%d,%d) covers none of the original chunks (next original: %+v)", i, ch.LStart, ch.LEnd, base[min(first, len(base)-1)]))
+				}
+				if base[first].ls-ch.LStart > total || ch.LEnd-base[bi-1].le > total || base[first].rs-ch.RStart > total || ch.REnd-base[bi-1].re > total {
+					return fail(stage, fmt.Sprintf("unified chunk %d left [%d,%d) extends more than n=%d lines beyond the changes it covers (left [%d,%d))", i, ch.LStart, ch.LEnd, total, base[first].ls, base[bi-1].le))
+				}
+			}
+			if bi != len(base) {
+				return fail(stage, fmt.Sprintf("original chunk %d (left [%d,%d)) is not covered by any unified chunk", bi, base[bi].ls, base[bi].le))
+			}
+			cur, curEdits = nil, nil
+
+		// ---- Format: rendering only ---------------------------------------------
+		case "normal", "unified", "context":
+			ff := mdiff.Normal
+			if st.Op == "unified" {
+				ff = mdiff.Unified
+			} else if st.Op == "context" {
+				ff = mdiff.Context
+			}
+			var fi *mdiff.FileInfo
+			if st.N != 0 {
+				fi = &mdiff.FileInfo{Left: "old", Right: "new"}
+			}
+			scratch.Reset()
+			if err := d.Format(&scratch, ff, fi); err != nil {
+				return fail(stage, fmt.Sprintf("Format returned error %v", err))
+			}
+			formatted = true
+			if m := undisturbed(stage); m != "" {
+				return m
+			}
+			if m := checkChunks(d.Chunks, c.L, c.R, disjoint, notAdjacent); m != "" {
+				return fail(stage, m+" [the chunks passed this check before the diff was rendered]")
+			}
+		default:
+			return fail(stage, "unknown step in the case")
+		}
 	}
-	if m := undisturbed("AddContext"); m != "" {
-		return m
-	}
-	if m := checkChunks(d.Chunks, c.L, c.R, false, false); m != "" {
-		return fail("AddContext", m)
-	}
-	if len(d.Chunks) != len(base) {
-		return fail("AddContext", fmt.Sprintf("number of chunks changed from %d to %d", len(base), len(d.Chunks)))
-	}
-	n := max(c.N, 0)
+	n = total
 	overlapOrMeet := false
-	for i, ch := range d.Chunks {
-		b := base[i]
-		pre, post := b.ls-ch.LStart, ch.LEnd-b.le
-		if pre < 0 || pre > n || post < 0 || post > n || b.rs-ch.RStart != pre || ch.REnd-b.re != post {
-			return fail("AddContext", fmt.Sprintf("chunk %d: context of %d lines before and %d after (right side %d/%d) with n=%d; was left [%d,%d) right [%d,%d), now left [%d,%d) right [%d,%d)",
-				i, pre, post, b.rs-ch.RStart, ch.REnd-b.re, n, b.ls, b.le, b.rs, b.re, ch.LStart, ch.LEnd, ch.RStart, ch.REnd))
-		}
-		es := ch.Edits
-		if pre > 0 {
-			if len(es) == 0 || es[0].Op != slice.OpEmit || len(es[0].X) != pre {
-				return fail("AddContext", fmt.Sprintf("chunk %d: %d lines of leading context are not one Emit edit", i, pre))
-			}
-			es = es[1:]
-		}
-		if post > 0 {
-			if len(es) == 0 || es[len(es)-1].Op != slice.OpEmit || len(es[len(es)-1].X) != post {
-				return fail("AddContext", fmt.Sprintf("chunk %d: %d lines of trailing context are not one Emit edit", i, post))
-			}
-			es = es[:len(es)-1]
-		}
-		if !sameEdits(baseEdits[i], es) {
-			return fail("AddContext", fmt.Sprintf("chunk %d: the edits between the context are %v, were %v", i, es, baseEdits[i]))
-		}
-		if i > 0 && (n > 1<<30 || base[i].ls-base[i-1].le < 2*n) {
+	for i := 1; i < len(base); i++ {
+		if n > 1<<30 || base[i].ls-base[i-1].le < 2*n {
 			overlapOrMeet = true
 		}
 	}
-
-	// ---- after Unify -----------------------------------------------------------
-	if ret := d.Unify(); ret != d {
-		return fail("Unify", "Unify does not return its receiver")
-	}
-	if m := undisturbed("Unify"); m != "" {
-		return m
-	}
-	if m := checkChunks(d.Chunks, c.L, c.R, true, true); m != "" {
-		return fail("Unify", m)
-	}
-	// every original chunk lies in exactly one unified chunk, which extends at
-	// most n lines beyond the first/last original chunk it covers
-	bi := 0
+	final := make([]span, len(d.Chunks))
 	for i, ch := range d.Chunks {
-		first := bi
-		for bi < len(base) && base[bi].le <= ch.LEnd && base[bi].ls >= ch.LStart {
-			bi++
-		}
-		if bi == first {
-			return fail("Unify", fmt.Sprintf("unified chunk %d left [%d,%d) covers none of the original chunks (next original: %+v)", i, ch.LStart, ch.LEnd, base[min(first, len(base)-1)]))
-		}
-		if base[first].ls-ch.LStart > n || ch.LEnd-base[bi-1].le > n || base[first].rs-ch.RStart > n || ch.REnd-base[bi-1].re > n {
-			return fail("Unify", fmt.Sprintf("unified chunk %d left [%d,%d) extends more than n=%d lines beyond the changes it covers (left [%d,%d))", i, ch.LStart, ch.LEnd, n, base[first].ls, base[bi-1].le))
-		}
+		final[i] = span{ch.LStart, ch.LEnd, ch.RStart, ch.REnd}
 	}
-	if bi != len(base) {
-		return fail("Unify", fmt.Sprintf("original chunk %d (left [%d,%d)) is not covered by any unified chunk", bi, base[bi].ls, base[bi].le))
-	}
+	o.Retain(func() string {
+		// the finished diff is the caller's: later diffs must not reach into it
+		if m := undisturbed("a later, unrelated New/AddContext/Unify"); m != "" {
+			return m
+		}
+		if m := checkChunks(d.Chunks, c.L, c.R, disjoint, notAdjacent); m != "" {
+			return fail("a later, unrelated New/AddContext/Unify", m)
+		}
+		if len(d.Chunks) != len(final) {
+			return fail("a later, unrelated New/AddContext/Unify", "the number of chunks changed")
+		}
+		for i, ch := range d.Chunks {
+			if final[i] != (span{ch.LStart, ch.LEnd, ch.RStart, ch.REnd}) {
+				return fail("a later, unrelated New/AddContext/Unify", fmt.Sprintf("chunk %d has other ranges than when the pipeline ended", i))
+			}
+		}
+		return ""
+	})
 
 	rep := hasRepeat(c.L, c.R)
 	if len(base) >= 2 && overlapOrMeet && rep && n > 0 {
@@ -411,5 +547,7 @@ func runC13(c DiffCase, o *vk.Obs) string {
 	o.ClassIf(rep, "repeated_line")
 	o.ClassIf(len(base) > len(d.Chunks), "unify_merged")
 	o.ClassIf(n == 0, "n=0")
+	o.ClassIf(stacked, "AddContext_called_repeatedly")
+	o.ClassIf(formatted, "rendered_between_stages")
 	return ""
 }
